@@ -25,6 +25,9 @@ import (
 
 	"github.com/edutko/decipher/internal/openpgp/elgamal"
 	"github.com/edutko/decipher/internal/openpgp/errors"
+	// RIPEMD-160 is hash id 3 of RFC 4880 (GnuPG 1.0's default certification digest): without it linked, keys whose
+	// self-signatures use it cannot be verified and are not described at all
+	_ "golang.org/x/crypto/ripemd160"
 )
 
 var (
